@@ -33,6 +33,26 @@ def make_track(pts):
     return Track([Obs(ENUCoords(x, y, 0.0), ObsTime.readUnixTime(float(10 * i))) for i, (x, y) in enumerate(pts)])
 
 
+def long_shape(shape, n):
+    """fixed long tracks for the scale probes (no three fixes exactly collinear, except in 'dups')"""
+    pts = []
+    for i in range(n):
+        w = 0.5 * (((i * 7) % 5) - 2) / 2.0
+        if shape == 'outback':          # two thirds of the fixes go out along a line, the last third comes half-way back
+            k = (2 * n) // 3
+            x = 100.0 * i / k if i <= k else 100.0 - 50.0 * (i - k) / (n - 1 - k)
+            pts.append((x, w + (0.25 if i > k else 0.0)))
+        elif shape == 'zigzag':
+            pts.append((2.0 * i, 8.0 * (1 - abs(((i % 10) / 5.0) - 1)) + w))
+        elif shape == 'loop':           # closed: first == last
+            a = 2 * math.pi * (i % (n - 1)) / (n - 1)
+            pts.append((50.0 * math.cos(a), 30.0 * math.sin(a)))
+        else:                           # 'dups': consecutive duplicates and a revisited position
+            j = i // 2
+            pts.append((3.0 * (j % 20), 1.5 * (j // 20) + w * (j % 3)))
+    return pts
+
+
 def stamps(track):
     return [int(track.getObs(i).timestamp.toAbsTime()) // 10 for i in range(track.size())]
 
@@ -71,6 +91,15 @@ class C16(Check):
             js.append(dict(kind='visv', n=n, closed=False))
             if n >= 3:
                 js.append(dict(kind='visv', n=n, closed=True))
+        # scale probes: long fixed tracks, symbolic tolerance in a narrow range
+        for shape in ('outback', 'zigzag', 'loop', 'dups'):
+            for n in ([70, 130] if q else [63, 64, 65, 129, 200, 300]):
+                js.append(dict(kind='long', shape=shape, n=n, mode=1, lo=4, hi=6))
+            for n in ([260] if q else [250, 251, 252, 253, 300, 520]):
+                if shape in ('zigzag', 'loop') or not q:
+                    js.append(dict(kind='long', shape=shape, n=n, mode=2, lo=0.001, hi=0.01))
+            if not q:
+                js.append(dict(kind='long', shape=shape, n=70, mode=2, lo=2, hi=3))
         js.sort(key=lambda j: -(j.get('n', 0)))
         return js
 
@@ -202,6 +231,33 @@ class C16(Check):
                         if not ctx.prove(table[key].z < eps.z, 'a dropped fix is closer than the tolerance to the chord of its kept neighbours'):
                             return
                 return
+            if kind == 'long':
+                n = job['n']
+                pts = long_shape(job['shape'], n)
+                eps = eng.real('eps', job['lo'], job['hi'])
+                tr = make_track(pts)
+                obs = [tr.getObs(i) for i in range(n)]
+                res = self._run_simplify(tr, eps, job['mode'])
+                ctx.reach()
+                st = stamps(res)
+                ctx.observe(size=len(st))
+                name = 'Douglas-Peucker' if job['mode'] == 1 else 'Visvalingam'
+                if any(a >= b for a, b in zip(st, st[1:])) or any(t < 0 or t >= n for t in st):
+                    ctx.fail('%s result on a long track is not a subsequence of the input observations in their original order' % name)
+                    return
+                if not st or st[0] != 0 or st[-1] != n - 1:
+                    ctx.fail('%s dropped the first or the last observation of a long track' % name)
+                    return
+                if any(res.getObs(i).position.getX() != pts[t][0] or res.getObs(i).position.getY() != pts[t][1] for i, t in enumerate(st)):
+                    ctx.fail('%s changed a position' % name)
+                    return
+                if job['mode'] == 1:
+                    worst = 0.0
+                    for i in range(n):
+                        if i not in st:
+                            worst = max(worst, min(true_dist(pts[i][0], pts[i][1], pts[a][0], pts[a][1], pts[b][0], pts[b][1]) for a, b in zip(st, st[1:])))
+                    ctx.prove(z3.RealVal(repr(worst)) <= eps.z * (1 + qtol()) + qtol(), 'on a long track every input fix lies within the tolerance of the simplified polyline')
+                return
             if kind == 'visv':
                 n = job['n']
                 pts = [(g('x%d' % i, -10, 10), g('y%d' % i, -10, 10)) for i in range(n)]
@@ -232,7 +288,7 @@ class C16(Check):
         except Exception as e:
             if isinstance(e, TypeError) and ('SReal' in str(e) or 'SInt' in str(e)):
                 raise
-            ctx.fail({'dist': 'distance_to_segment', 'dp_link': 'Douglas-Peucker', 'dp_struct': 'Douglas-Peucker', 'visv': 'Visvalingam'}[kind] + ' raised %s' % type(e).__name__)
+            ctx.fail({'dist': 'distance_to_segment', 'dp_link': 'Douglas-Peucker', 'dp_struct': 'Douglas-Peucker', 'visv': 'Visvalingam', 'long': 'simplification of a long track'}[kind] + ' raised %s' % type(e).__name__)
 
     # ------------------------------------------------------------------ concrete replay
     def concrete(self, job, inp):
@@ -291,6 +347,25 @@ class C16(Check):
                     for i in range(a + 1, b):
                         if (i, a, b) not in used or used[(i, a, b)] >= eps:
                             return dict(violation='fix %d dropped between kept %d and %d although its distance to that chord is %r (eps %r)' % (i, a, b, used.get((i, a, b)), eps), outputs=out)
+                return dict(violation=None, outputs=out)
+            if kind == 'long':
+                n = job['n']
+                pts = long_shape(job['shape'], n)
+                eps = float(inp['eps'])
+                res = self._run_simplify(make_track(pts), eps, job['mode'])
+                st = stamps(res)
+                out = dict(size=len(st))
+                name = 'Douglas-Peucker' if job['mode'] == 1 else 'Visvalingam'
+                if any(a >= b for a, b in zip(st, st[1:])) or not st or st[0] != 0 or st[-1] != n - 1 or any(t < 0 or t >= n for t in st):
+                    bad = [t for t, u in zip(st, st[1:]) if t >= u]
+                    return dict(violation='%s on the %d-fix %s track (tolerance %r) returned observations that are not a subsequence with both ends (size %d, first %r, last %r, repeated / out of order at %r)'
+                                          % (name, n, job['shape'], eps, len(st), st[:1], st[-1:], bad[:5]), outputs=out)
+                if job['mode'] == 1:
+                    for i in range(n):
+                        if i not in st:
+                            d = min(true_dist(pts[i][0], pts[i][1], pts[a][0], pts[a][1], pts[b][0], pts[b][1]) for a, b in zip(st, st[1:]))
+                            if d > eps * (1 + 1e-9) + 1e-9:
+                                return dict(violation='Douglas-Peucker on the %d-fix %s track, tolerance %r: fix %d lies %r away from the simplified polyline (kept %d fixes)' % (n, job['shape'], eps, i, d, len(st)), outputs=out)
                 return dict(violation=None, outputs=out)
             if kind == 'visv':
                 n = job['n']
